@@ -35,6 +35,31 @@ def run(ctx, prefixes, rand_n=0, extra_vecs=None):
     return rows
 
 
+GENOME = "TTGATGGCTAAATAAGGCTCACCCGGGCAT"
+
+
+def refdup_vectors(ctx):
+    """Alignments that carry the reference record a second time (two alignments to one reference, concatenated), read from a
+    file and from stdin, with and without a window: the record named like the reference is never a query."""
+    import random
+    rng = random.Random(ctx.seed + 31)
+    feats = [{"name": "g1", "kind": "CDS", "named": True, "strand": 1, "segs": [[4, 15]], "cstart": 1, "gbform": 0}]
+
+    def run(stdin, s=-1, e=-1, app=False):
+        return {"cmd": "variants", "anno": "gb", "append": app, "s": s, "e": e, "agg": False, "thr": 0, "t": 2, "stdin": stdin}
+    out = []
+    for k in range(4):
+        qs = []
+        for i in range(3 + k):
+            q = list(GENOME)
+            for p in rng.sample(range(len(q)), 1 + rng.randrange(3)):
+                q[p] = {"A": "C", "C": "G", "G": "T", "T": "A"}[q[p]]
+            qs.append(q)
+        out.append({"id": "refdup-%d" % k, "kind": "anno", "R": list(GENOME), "qs": qs, "feats": feats, "refdup": True,
+                    "runs": [run(False), run(True), run(False, app=True), run(True, app=True), run(False, 5, 20), run(True, 5, 20), run(True, -1, 12)]})
+    return out
+
+
 RULE = ("TLC steps the indel scanner against the declarative IndelsOf for every column-class string over {both-gap, insertion, deletion, base} of "
         "length <=7 (thorough 9) and checks the both-gap invariance on the definition; every such string of length <=6 (8) is run as a 3-sequence "
         "alignment through variants, sam variants and toPairAlign+variants; a 30-base genome with a forward and a reverse gene under 8 feature "
